@@ -44,6 +44,9 @@ mod imp {
     pub fn thread_name() -> String {
         tiny_http_vrt::thread_name()
     }
+    pub fn spurious() {
+        tiny_http_vrt::spurious_wake_all();
+    }
 
     #[derive(Clone)]
     pub enum Addr {
@@ -200,6 +203,7 @@ mod imp {
     pub fn thread_name() -> String {
         NAME.with(|x| x.borrow().clone())
     }
+    pub fn spurious() {}
 
     #[derive(Clone)]
     pub enum Addr {
